@@ -547,3 +547,9 @@ m('c06-handwritten-mode-table', ['C06'], 'MODE-DISPATCH', [
                         };
                         BigInt::new(sign, vec![rounded_digit as u32])""")],
   'a correct-looking hand-written mode table in one branch of with_scale_round: any such table escapes the round_pair check')
+m('c18-pow10-recursive-split', ['C18', 'C01'], 'ten_to_the_uint:returns-10^k', [
+  ('src/arithmetic/mod.rs', "    let x8 = &x4 * &x4;\n    let res = &x8 * &x8;", "    let x8 = &x4 * &x4;\n    let res = &x8 * &x4;")],
+  '10^k is wrong for every k >= 590 (x^12 instead of x^16): all operations with such scale gaps')
+m('c18-pow10-boundary-remainder', ['C18', 'C01'], 'ten_to_the_uint:returns-10^k', [
+  ('src/arithmetic/mod.rs', "    if rem == 0 {\n        res\n    } else {\n        res * 10u64.pow(rem as u32)", "    if rem <= 1 {\n        res\n    } else {\n        res * 10u64.pow(rem as u32)")],
+  '10^k is ten times too small when k >= 590 and k % 16 == 1')
